@@ -167,10 +167,63 @@ def generate(tier, rng):
         except core.OffGrid:
             continue
         cases.append({"op": "hist", "tier": t0, "args": {"ops": ops}, "scale": sc})
+    # constructors on raw binary64 values whose boundaries touch, nearly touch (1 ulp apart either way) or are
+    # decimal sums such as 0.1+0.2 against 0.3: whatever is returned must be well-formed in exact comparison
+    import math
+    for _ in range(400 if tier == "quick" else 10000):
+        kind = "I" if rng.random() < 0.75 else "P"
+        n = rng.randint(1, 4)
+        cuts = sorted(rng.sample(range(1, 400), 2 * n))
+        vals = []
+        for k, c in enumerate(cuts):
+            x = c / 10.0 if rng.random() < 0.7 else (c // 10) / 10.0 + (c % 10) / 10.0
+            vals.append(x)
+        vals.sort()
+        ents = []
+        if kind == "I":
+            prev_end = None
+            for k in range(n):
+                s, e = vals[2 * k], vals[2 * k + 1]
+                if prev_end is not None and rng.random() < 0.6:
+                    u = rng.random()
+                    s = prev_end if u < 0.3 else (math.nextafter(prev_end, 0.0) if u < 0.7 else math.nextafter(prev_end, math.inf))
+                if not s < e:
+                    continue
+                ents.append([s.hex(), e.hex(), rng.choice(["a", "b", ""])])
+                prev_end = e
+        else:
+            for k in range(n):
+                ents.append([vals[k].hex(), rng.choice(["a", "b"])])
+        u = rng.random()
+        lo = None if u < 0.4 else (0.0 if u < 0.8 else float.fromhex(ents[0][0]) if ents else 0.0)
+        hi = None if rng.random() < 0.4 else 40.0
+        if ents and rng.random() < 0.15:
+            hi = math.nextafter(float.fromhex(ents[-1][-2]), 0.0)      # span 1 ulp short of the last entry
+        cases.append({"op": "fctor", "tier": {"kind": kind, "name": "f", "entries": [], "min": 0, "max": 0},
+                      "args": {"ops": [], "ents": ents, "mn": None if lo is None else lo.hex(), "mx": None if hi is None else hi.hex()},
+                      "scale": ["decimal", 1]})
     return cases
 
 
+def _run_fctor(case):
+    from praatio.data_classes.interval_tier import IntervalTier
+    from praatio.data_classes.point_tier import PointTier
+    a = case["args"]
+    ents = [tuple([float.fromhex(x) for x in e[:-1]] + [e[-1]]) for e in a["ents"]]
+    cls = IntervalTier if case["tier"]["kind"] == "I" else PointTier
+    try:
+        with core.captured_stdout():
+            t = cls("f", ents, None if a["mn"] is None else float.fromhex(a["mn"]), None if a["mx"] is None else float.fromhex(a["mx"]))
+    except Exception as e:  # noqa
+        return [[core.err_kind(e), None, True, None]]
+    with core.captured_stdout():
+        v = bool(t.validate("silence"))
+    return [[None, None, v, _rank_snap(t)]]
+
+
 def run(case):
+    if case["op"] == "fctor":
+        return core.run_guarded(lambda: _run_fctor(case))
     sc = core.Scale(*case["scale"])
 
     def f():
@@ -225,6 +278,11 @@ def emit(case, r):
         return None
     kind = case["tier"]["kind"]
     ct = core.citier if kind == "I" else core.cptier
+    if case["op"] == "fctor":
+        err, _st, v, rk = r["ok"][0]
+        if err is not None:
+            return None
+        return "States%s %s" % (kind, core.clist(["(%s, %s)" % (ct(rk), core.cbool(v))]))
     if case["scale"][0] == "decimal":
         return "States%s %s" % (kind, core.clist(["(%s, %s)" % (ct(rk), core.cbool(v)) for _, st, v, rk in r["ok"]]))
     items = []
@@ -247,15 +305,21 @@ def py_checks(case, r):
 
 
 def classify(case, r):
+    if case["op"] == "fctor":
+        return "fctor/%s/%s" % (case["tier"]["kind"], "raised" if r.get("ok", [[1]])[0][0] is not None else "built")
     nerr = sum(1 for x in r.get("ok", []) if x[0] is not None)
     return "hist/%s/%s/len%d/errors%d" % (case["tier"]["kind"], case["scale"][0], len(case["args"]["ops"]), min(nerr, 3))
 
 
 def nontrivial(case, r):
+    if case["op"] == "fctor":
+        return len(case["args"]["ents"]) >= 2
     return len(case["args"]["ops"]) >= 3 and any(x[0] is None for x in r.get("ok", []))
 
 
 def shrinks(case):
+    if case["op"] == "fctor":
+        return
     ops = case["args"]["ops"]
     for k in range(len(ops) - 1, 0, -1):
         c = dict(case)
